@@ -89,7 +89,7 @@ for line in open('/verif/properties.jsonl'):
     if ids and pid not in ids:
         continue
     name = pid + tag
-    if tag == 'x':
+    if tag in ('x', 'y'):
         a = TEMPLATE.index('They are used to check'); b = TEMPLATE.index('## Where to work')
         TEMPLATE = TEMPLATE[:a] + BRIEF_X + '\n' + TEMPLATE[b:]
         TEMPLATE = TEMPLATE.replace('**behaviour-preserving refactorings**', '**property-preserving commits**')
